@@ -1110,7 +1110,8 @@ static size_t ZSTDMT_resize(ZSTDMT_CCtx* mtctx, unsigned nbWorkers)
     /* Forget the current worker count until the resize is complete :
      * if it fails midway, the next session must resize again, whatever count it requests. */
     ZSTDMT_CCtxParam_setNbWorkers(&mtctx->params, 0);
-    if (POOL_resize(mtctx->factory, nbWorkers)) return ERROR(memory_allocation);
+    /* a pool provided with ZSTD_CCtx_refThreadPool() keeps the size its owner gave it : other contexts share it */
+    if (!mtctx->providedFactory && POOL_resize(mtctx->factory, nbWorkers)) return ERROR(memory_allocation);
     FORWARD_IF_ERROR( ZSTDMT_expandJobsTable(mtctx, nbWorkers) , "");
     /* note : a pool is NULL here when a previous resize failed after releasing it */
     mtctx->bufPool = (mtctx->bufPool == NULL) ?
